@@ -159,10 +159,18 @@ pub enum SinkStep {
     Fail(FaultKind),
 }
 
-/// Per-`write` behaviour of a sink; cyclic; empty = accept everything.
+/// Behaviour of a sink. Two styles:
+/// * call-scripted: `steps` is a cyclic per-`write` script (empty = accept everything);
+/// * byte-budgeted (`budget` set, `steps` empty): accept at most `piece` bytes per write (0 = unlimited) until
+///   `budget.0` bytes were taken in total, then answer every write with `budget.1` (Zero or Fail). This style does
+///   not depend on how many `write` calls the data is offered in, i.e. not on the ring buffer's internal layout.
 #[derive(Clone, Debug, Default, PartialEq, Serialize, Deserialize)]
 pub struct SinkScript {
     pub steps: Vec<SinkStep>,
+    #[serde(default)]
+    pub piece: u32,
+    #[serde(default)]
+    pub budget: Option<(u64, SinkStep)>,
 }
 
 #[derive(Clone, Debug, Default)]
@@ -176,6 +184,8 @@ pub struct SinkStats {
 
 pub struct SimSink {
     steps: Vec<SinkStep>,
+    piece: u32,
+    budget: Option<(u64, SinkStep)>,
     idx: usize,
     pub accepted: Vec<u8>,
     pub stats: SinkStats,
@@ -188,6 +198,8 @@ impl SimSink {
     pub fn new(script: &SinkScript) -> SimSink {
         SimSink {
             steps: script.steps.clone(),
+            piece: script.piece,
+            budget: script.budget,
             idx: 0,
             accepted: Vec::new(),
             stats: SinkStats::default(),
@@ -205,7 +217,21 @@ impl Write for SimSink {
     fn write(&mut self, buf: &[u8]) -> Result<usize, Error> {
         self.stats.calls += 1;
         self.calls_since_mark += 1;
-        let step = if self.steps.is_empty() {
+        let step = if self.steps.is_empty() && (self.budget.is_some() || self.piece != 0) {
+            // byte-budgeted style
+            let taken = self.accepted.len() as u64;
+            match self.budget {
+                Some((b, then)) if taken >= b => match then {
+                    SinkStep::Fail(k) => SinkStep::Fail(k),
+                    _ => SinkStep::Zero,
+                },
+                Some((b, _)) => {
+                    let room = (b - taken).min(u32::MAX as u64) as u32;
+                    SinkStep::AtMost(if self.piece == 0 { room } else { room.min(self.piece) })
+                }
+                None => SinkStep::AtMost(self.piece),
+            }
+        } else if self.steps.is_empty() {
             SinkStep::All
         } else {
             let s = self.steps[self.idx % self.steps.len()];
